@@ -34,6 +34,9 @@ CONSTANTS Ops,      \* subset of {"count","time","toc","bound","when","toggle"}
           Counts, Spans, Shifts, Durs,   \* parameter ranges (positive integers)
           CKinds,   \* first notification of a closing observable: subset of {"N","C","E"}
           AuxTerms, \* terminal of the boundary / openings lane: subset of {"U","E"}
+          ZeroDur,  \* TRUE: window_when's closing observables may also notify SYNCHRONOUSLY, inside subscribe (duration
+                    \*       0: BehaviorSubject, create()-based ...): the window closes at the instant it opened, before
+                    \*       anything else, and the next one opens; never two such windows in a row
           Faults,   \* TRUE: the closing mapper may raise at its k-th call (C09 dimension)
           Disposes  \* TRUE: the subscriber may dispose the result and every window subscription half a tick
                     \*       after instant dsp \in 0..MaxT (C03 dimension)
@@ -62,7 +65,9 @@ ParamsOf(o, ax) ==
     [] o = "time"   -> [span : Spans, shift : Shifts]
     [] o = "toc"    -> [span : Spans, count : Counts]
     [] o = "bound"  -> {[z |-> 0]}
-    [] o = "when"   -> [durs : UNION {[1..n -> Durs] : n \in 1..2}, ck : CKinds, fr : FaultCalls(2)]
+    [] o = "when"   -> {p \in [durs : UNION {[1..n -> Durs \cup (IF ZeroDur THEN {0} ELSE {})] : n \in 1..2}, ck : CKinds,
+                                fr : FaultCalls(2)] : /\ (Len(p.durs) = 1 => p.durs[1] # 0)
+                                                     /\ ~(Len(p.durs) = 2 /\ p.durs[1] = 0 /\ p.durs[2] = 0)}
     [] o = "toggle" -> [durs : [1..Len(ax) -> Durs], ck : CKinds, fr : FaultCalls(Len(ax))]
 
 \* duration of the closing observable created for window w (window_when: cyclic pattern)
@@ -118,6 +123,17 @@ FailHop(w, t) == [id |-> w, due |-> t, fail |-> TRUE]
 Tm(w, due) == [id |-> w, due |-> due, fail |-> FALSE]
 
 (* ---- the transducers ---------------------------------------------------------------------- *)
+\* window_when: a window was just opened (the last one); the closing mapper is called for it and its result
+\* subscribed.  A closing observable with duration 0 notifies inside that subscribe call: the window is closed on
+\* the spot, the next one opened and the mapper called again (its duration is not 0).
+ArmWhen(Z, t) == LET w == Len(Z.wins)  Zc == [Z EXCEPT !.calls = Z.calls + 1] IN
+                 [Zc EXCEPT !.timers = {IF par.fr = Zc.calls THEN FailHop(w, t) ELSE Tm(w, t + DurWhen(w))}]
+StartWhen(Z, t, lt) ==
+  LET w == Len(Z.wins) IN
+  IF par.fr = Z.calls + 1 \/ DurWhen(w) > 0 THEN ArmWhen(Z, t)
+  ELSE IF par.ck = "E" THEN Fail([Z EXCEPT !.calls = Z.calls + 1], "close", t, lt)
+  ELSE ArmWhen(Open(Close([Z EXCEPT !.calls = Z.calls + 1], w, t, lt), t, lt), t)
+
 NextTimeDue(no, nc) == Min2(no * par.shift, nc * par.shift + par.span)
 
 S0 == [wins |-> <<>>, live |-> <<>>, timers |-> {}, c |-> 0, no |-> 1, nc |-> 0, calls |-> 0,
@@ -129,7 +145,7 @@ InitS ==
   CASE op = "toggle" -> S0
     [] op = "time"   -> [Z1 EXCEPT !.timers = {Tm(0, NextTimeDue(1, 0))}]
     [] op = "toc"    -> [Z1 EXCEPT !.timers = {Tm(1, par.span)}]
-    [] op = "when"   -> [Z1 EXCEPT !.calls = 1, !.timers = {IF par.fr = 1 THEN FailHop(1, 0) ELSE Tm(1, DurWhen(1))}]
+    [] op = "when"   -> StartWhen(Z1, 0, 1)
     [] OTHER         -> Z1
 
 \* source element v arrives at instant t; n = number of this event (logical instants 3n, 3n+1, 3n+2)
@@ -172,9 +188,7 @@ OnTimer(Z, x, t, n) ==
           [Z2 EXCEPT !.c = 0, !.timers = {Tm(Len(Z2.wins), t + par.span)}])
     [] op = "when" ->
          IF par.ck = "E" THEN Fail(Z, "close", t, 3 * n)
-         ELSE (LET Z2 == Open(Close(Z, x.id, t, 3 * n), t, 3 * n)  w == Len(Z2.wins) IN
-               [Z2 EXCEPT !.calls = Z.calls + 1,
-                          !.timers = {IF par.fr = Z.calls + 1 THEN FailHop(w, t) ELSE Tm(w, t + DurWhen(w))}])
+         ELSE StartWhen(Open(Close(Z, x.id, t, 3 * n), t, 3 * n), t, 3 * n)
     [] op = "toggle" ->
          IF par.ck = "E" THEN Fail(Z, "close", t, 3 * n) ELSE Close(Z, x.id, t, 3 * n)
     [] OTHER -> Z
